@@ -25,9 +25,10 @@ import (
 	"time"
 )
 
+var repoDir = "/repo" // --repo overrides (sensitivity experiments on scratch worktrees only)
+
 const (
 	verifDir = "/verif"
-	repoDir  = "/repo"
 	workRoot = "/var/tmp/verif-work"
 	goRoot   = "/opt/veriftools/go1.26.8"
 )
@@ -153,6 +154,20 @@ func loadChecks() map[string]*Check {
 	for _, c := range list {
 		m[c.ID] = c
 	}
+	// per-harness entries: /verif/harness/<dir>/check.json (one Check object)
+	more, _ := filepath.Glob(filepath.Join(verifDir, "harness", "*", "check.json"))
+	sort.Strings(more)
+	for _, f := range more {
+		b, err := os.ReadFile(f)
+		if err != nil {
+			die(2, "%v", err)
+		}
+		c := new(Check)
+		if err := json.Unmarshal(b, c); err != nil {
+			die(2, "%s: %v", f, err)
+		}
+		m[c.ID] = c
+	}
 	return m
 }
 
@@ -202,7 +217,7 @@ func build(c *Check, work string) (string, json.RawMessage) {
 			die(2, "harness: %v", err)
 		}
 		for _, e := range ents {
-			if e.IsDir() {
+			if e.IsDir() || !strings.HasSuffix(e.Name(), ".txt") {
 				continue
 			}
 			name := e.Name()
@@ -559,7 +574,14 @@ func cmdCheck(args []string) int {
 	keep := fs.Bool("keep", false, "keep the work directory")
 	noEvidence := fs.Bool("no-evidence", false, "do not write the evidence file")
 	workers := fs.Int("workers", 16, "worker processes")
+	repoF := fs.String("repo", "", "build from this tree instead of /repo (scratch worktrees for sensitivity experiments; implies --no-evidence and a separate work dir)")
 	fs.Parse(args[1:])
+	workTag := ""
+	if *repoF != "" {
+		repoDir = *repoF
+		*noEvidence = true
+		workTag = "-alt" + sigHash(*repoF)
+	}
 	if t := os.Getenv("VERIF_TIER"); t != "" && !flagSet(fs, "tier") {
 		*tier = t
 	}
@@ -591,7 +613,7 @@ func cmdCheck(args []string) int {
 	}
 	known := loadKnown()
 	t0 := time.Now()
-	work := filepath.Join(workRoot, id+"-"+*tier)
+	work := filepath.Join(workRoot, id+"-"+*tier+workTag)
 	bin, census := build(c, work)
 	if !*keep {
 		defer os.RemoveAll(work)
